@@ -10,7 +10,7 @@ Driver for C02. Case line (see harness/c02/main.go):
                difference (C11's subject), so the token is read and ignored — a difference shows as MI=0
 
   script     = n op…            op = NR | U r hs | G r seg hs | SG g seg hs | GU g hs | V r ver | VG v seg hs
-                                     | R owner seg hs | M parent sub seg inherit hs | W r
+                                     | R owner seg hs | M parent sub seg inherit hs | W r | WH r ver path
                                      | AU hs | AG seg hs arr cap | ASG g seg hs | AGU g hs | AV ver
                                      | AVSG vg seg hs | AVU vg hs | AR aowner seg hs h hs
   owner      = r k | g k | v k | vg k          aowner = a | ag k | avg k          hs = n id…
@@ -52,6 +52,7 @@ def pOp : P Op := do
   else if k == "M" then do
     let p ← nat; let sub ← nat; let s ← nat; let inh ← bool; let hs ← pHs; pure (.mount p sub s inh hs)
   else if k == "W" then Op.warmup <$> nat
+  else if k == "WH" then do let r ← nat; let v ← opt nat; let p ← list nat; pure (.whereOp r v p)
   else if k == "AU" then Op.ause <$> pHs
   else if k == "AG" then do let s ← nat; let hs ← pHs; let a ← nat; let c ← nat; pure (.agroup s hs a c)
   else if k == "ASG" then do let g ← nat; let s ← nat; let hs ← pHs; pure (.asubgroup g s hs)
